@@ -334,7 +334,11 @@ def main():
     }
     evdir = os.environ.get("VERIF_EVIDENCE_DIR") or os.path.join(VERIF, "evidence")   # redirected only by tools/seed_eval.py
     os.makedirs(evdir, exist_ok=True)
-    json.dump(ev, open(os.path.join(evdir, pid + ".json"), "w"), indent=1)
+    if a.no_kani and harnesses:
+        # a development run without the Kani part: never overwrite the evidence of a property that has Kani harnesses
+        print(f"{pid}: --no-kani: evidence file left untouched (property has Kani harnesses)")
+    else:
+        json.dump(ev, open(os.path.join(evdir, pid + ".json"), "w"), indent=1)
     for l in known_lines:
         print(l)
     for l in out_lines:
